@@ -131,4 +131,87 @@ theorem uniqueFrom_spec (mk : Nat → String) (hinj : ∀ a b, mk a = mk b → a
   refine ⟨k, h1, ?_, h3 ▸ h5, h6⟩
   simp [uniqueFrom, hr, h3, h4]
 
+/-! ### one call -/
+
+/-- a generated name is not in the seen set of its namespace at that moment -/
+theorem step_fresh (a : Auth) (op : Op) (h : (step a op).2.generated = true) :
+    (step a op).2.name ∉ a.seen (step a op).2.isNode := by
+  cases op with
+  | value name =>
+    cases name with
+    | some s => simp [step] at h
+    | none =>
+      obtain ⟨k, _, he, hn, _⟩ := uniqueFrom_spec valName (fun _ _ => valName_inj) a.vnames a.vc
+      simp [step, he, Auth.seen, hn]
+  | node name o =>
+    cases name with
+    | some s => simp [step] at h
+    | none =>
+      obtain ⟨k, _, he, hn, _⟩ := uniqueFrom_spec (nodeName o) (fun _ _ => nodeName_inj o) a.nnames a.nc
+      simp [step, he, Auth.seen, hn]
+
+/-- the name an object has after the call is in the seen set afterwards -/
+theorem step_registers (a : Auth) (op : Op) :
+    (step a op).2.name ∈ (step a op).1.seen (step a op).2.isNode := by
+  cases op with
+  | value name => cases name <;> simp [step, Auth.seen]
+  | node name o => cases name <;> simp [step, Auth.seen]
+
+/-- seen sets never shrink, counters never decrease -/
+theorem step_mono (a : Auth) (op : Op) :
+    (∀ b x, x ∈ a.seen b → x ∈ (step a op).1.seen b) ∧ a.vc ≤ (step a op).1.vc ∧ a.nc ≤ (step a op).1.nc := by
+  cases op with
+  | value name =>
+    cases name with
+    | some s =>
+      refine ⟨?_, by simp [step], by simp [step]⟩
+      intro b x hx; cases b <;> simp_all [step, Auth.seen]
+    | none =>
+      obtain ⟨k, hk, he, _, _⟩ := uniqueFrom_spec valName (fun _ _ => valName_inj) a.vnames a.vc
+      refine ⟨?_, by simp [step, he]; omega, by simp [step]⟩
+      intro b x hx; cases b <;> simp_all [step, Auth.seen]
+  | node name o =>
+    cases name with
+    | some s =>
+      refine ⟨?_, by simp [step], by simp [step]⟩
+      intro b x hx; cases b <;> simp_all [step, Auth.seen]
+    | none =>
+      obtain ⟨k, hk, he, _, _⟩ := uniqueFrom_spec (nodeName o) (fun _ _ => nodeName_inj o) a.nnames a.nc
+      refine ⟨?_, by simp [step], by simp [step, he]; omega⟩
+      intro b x hx; cases b <;> simp_all [step, Auth.seen]
+
+theorem run_cons (op : Op) (ops : List Op) (a : Auth) :
+    (run (op :: ops) a).2 = (step a op).2 :: (run ops (step a op).1).2 := by
+  simp [run]
+
+theorem run_cons_fst (op : Op) (ops : List Op) (a : Auth) :
+    (run (op :: ops) a).1 = (run ops (step a op).1).1 := by
+  simp [run]
+
+/-- along any history: seen sets only grow and the counters only increase -/
+theorem run_mono (ops : List Op) : ∀ (a : Auth),
+    (∀ b x, x ∈ a.seen b → x ∈ (run ops a).1.seen b) ∧ a.vc ≤ (run ops a).1.vc ∧ a.nc ≤ (run ops a).1.nc := by
+  induction ops with
+  | nil => intro a; simp [run]
+  | cons op ops ih =>
+    intro a
+    obtain ⟨h1, h2, h3⟩ := step_mono a op
+    obtain ⟨g1, g2, g3⟩ := ih (step a op).1
+    rw [run_cons_fst]
+    exact ⟨fun b x hx => g1 b x (h1 b x hx), by omega, by omega⟩
+
+/-- every name a history hands out or registers is in the final seen set of its namespace -/
+theorem run_registers (ops : List Op) : ∀ (a : Auth) (e : Ev), e ∈ (run ops a).2 →
+    e.name ∈ (run ops a).1.seen e.isNode := by
+  induction ops with
+  | nil => intro a e h; simp [run] at h
+  | cons op ops ih =>
+    intro a e h
+    rw [run_cons] at h
+    rw [run_cons_fst]
+    rcases List.mem_cons.mp h with h | h
+    · subst h
+      exact (run_mono ops (step a op).1).1 _ _ (step_registers a op)
+    · exact ih _ _ h
+
 end IrVerif.Names
